@@ -96,7 +96,7 @@ def run_semantic(res, b, tier, seed, prop, make_cfgs, transform=None, n_quick=40
             for k, v in ks.items():
                 kinds[k] = kinds.get(k, 0) + v
             cases.append(pipeline.Case("g%d" % i, {"main.tsh": src.encode()}, meta=dict(expected_out=out, expected_status=status, src=src,
-                                                                                        switch_break=bool(ks.get("_switch_break")))))
+                                                                                        switch_break=bool(ks.get("_switch_break")), switch_tag_call=bool(ks.get("_switch_tag_call")), range_call=bool(ks.get("_range_call")))))
         d1, f1 = semcheck.check_cases(b, cases)
         if extra_oracle:
             f1 += extra_oracle(b, cases)
@@ -114,7 +114,7 @@ def run_semantic(res, b, tier, seed, prop, make_cfgs, transform=None, n_quick=40
             if id(c) not in keep:
                 c.out.clear()
                 c.meta = dict(src=c.meta.get("src", ""), expected_out=c.meta.get("expected_out"), expected_status=c.meta.get("expected_status"),
-                              switch_break=c.meta.get("switch_break"))
+                              switch_break=c.meta.get("switch_break"), switch_tag_call=c.meta.get("switch_tag_call"), range_call=c.meta.get("range_call"))
         all_cases.append(len(cases))
         cases = []
         done += m
@@ -141,6 +141,10 @@ def run_semantic(res, b, tier, seed, prop, make_cfgs, transform=None, n_quick=40
         fid = classify(c, kind, detail) if classify else None
         if fid is None and c.meta.get("switch_break") and kind == "behaviour":
             fid = "break-in-switch"
+        if fid is None and c.meta.get("switch_tag_call") and kind == "behaviour":
+            fid = "switch-tag-evaluated-per-case"
+        if fid is None and c.meta.get("range_call") and kind == "behaviour":
+            fid = "range-expression-re-evaluated"
         if fid and res.known_finding(fid, kind):
             continue
         real.append((c, kind, detail))
